@@ -34,6 +34,7 @@ void yield_point(const char *what);    // explicit scheduling point (inside harn
 void run_to_quiescence();               // main thread: let everybody else run until nobody can
 std::string blocked_threads();          // description of unfinished threads (after quiescence)
 bool others_finished();
+bool main_waiting();                    // the main thread is blocked in a condition wait or a join
 extern void (*on_stuck)(const char *why); // called when nothing can run any more or the step budget is exceeded; must not return
 
 } // namespace sched
